@@ -179,4 +179,23 @@ PROPS = {
         "not_covered": ["response handling after get() (send, status check, JSON decoding): cut by R17b, irrelevant to the property"],
         "assumptions": ["url crate: Url::parse_with_params appends each pair form-encoded, and a conforming server decodes form_encode(pairs) back to exactly pairs"],
     },
+    "C13": {
+        "units": ["U8h"],
+        "kani": ["U8"],
+        "level": "proof",
+        "witness": [(r"big_limit", "limiter_big"), (r".", "limiter")],
+        "sweep": ["limiter"],
+        "explanation": "RateLimiter::enqueue is extracted verbatim (only #[instrument] dropped) into a generated Kani crate whose environment models tokio's "
+                       "Instant as a harness-controlled clock and HashMap as a two-slot association list with the same entry/or_insert/retain/len interface. "
+                       "Loop-free harnesses over full-domain symbolic inputs (bit-precise IEEE-754 f32, cadical) prove the step contract S1-S5: exact integer "
+                       "counters, admission only below the limit, a rejection adds nothing, the window start moves only when >= duration old, idle >= 2*duration "
+                       "=> admitted with a clean bucket, an unknown key behaves like a cleaned-up one, other keys' buckets are untouched, cleanup removes only "
+                       "keys idle >= 2*duration and leaves only younger ones. U8h (Verus) lifts the step contract to histories: counters stay in [0, limit], "
+                       "at most `limit` admissions per window, window starts >= duration apart.",
+        "not_covered": ["limit > 2^24: open known finding (f32 counter stalls)", "durations that are not whole seconds (start() builds them with Duration::from_secs) and > 366 days",
+                        "more than two simultaneously tracked keys (model map has two slots; the step is independent of the other slot's contents, which are arbitrary)",
+                        "the counting step from (<= limit per window, windows >= duration apart) to '<= 2*limit in any interval of length duration' is a paper argument (DESIGN.md)",
+                        "'tracked keys limited to those seen in the last four durations': only the per-call cleanup contract is proved; cleanup runs on admitted attempts only"],
+        "assumptions": ["std HashMap::{entry, or_insert, retain, len} behave like the association-list model", "tokio Instant::now is monotone; both reads inside one call return the same instant"],
+    },
 }
